@@ -14,7 +14,7 @@ use std::sync::Arc;
 use std::time::{Duration, Instant};
 use vh_core::chaos;
 use vh_core::rng::Rng;
-use vh_core::stepper::{block_on, block_on_or_cancel};
+use vh_core::stepper::{block_on, block_on_or_cancel_ex};
 use vh_core::stuck::{self, Canary};
 
 #[derive(Clone, Copy, Debug, PartialEq, Eq, Hash)]
@@ -73,6 +73,10 @@ pub struct Scenario {
   pub gremlin: bool,
   pub profile: chaos::Profile,
   pub tiny: bool,
+  /// drain phases per producer thread: the producer pauses until every value definitely sent
+  /// so far has been received, so a wake-up lost on the last values is not papered over by
+  /// later traffic
+  pub phases: u32,
 }
 
 impl Scenario {
@@ -80,7 +84,7 @@ impl Scenario {
     json!({"exec": self.exec, "seed": self.seed, "flavour": self.flavour.name(), "class": self.class.name(),
       "cap": self.cap, "async_ctor": self.async_ctor, "producers": self.producers,
       "consumers": self.consumers, "ops_per_thread": self.ops, "early_exit_receivers": self.early_exit,
-      "spurious_unparks": self.gremlin,
+      "spurious_unparks": self.gremlin, "drain_phases": self.phases,
       "chaos": {"p_sleep": self.profile.p_sleep, "p_yield": self.profile.p_yield, "p_spin": self.profile.p_spin,
          "change_points": self.profile.change_points, "horizon": self.profile.horizon}})
   }
@@ -150,8 +154,13 @@ pub fn gen_scenario(rng: &mut Rng, exec: u64, focus: &Focus, tiny: bool) -> Scen
     ops,
     early_exit,
     gremlin: rng.chance(focus.p_gremlin.0, focus.p_gremlin.1),
-    profile: chaos::Profile::pick(rng),
+    profile: if tiny { chaos::Profile::pick_tiny(rng) } else { chaos::Profile::pick(rng) },
     tiny,
+    phases: if !early_exit && !flavour.oneshot() && !flavour.rendezvous() && class != Class::Lifecycle && class != Class::Try && rng.chance(2, 5) {
+      rng.range(1, 3) as u32
+    } else {
+      0
+    },
   }
 }
 
@@ -182,6 +191,8 @@ pub struct Shared {
   pub state: Vec<AtomicU8>,
   pub stop: AtomicBool,
   pub cap_reported: std::sync::Mutex<Option<usize>>,
+  /// consumer threads that have not finished their script
+  pub live_consumers: AtomicU32,
 }
 
 const ST_RUN: u8 = 0;
@@ -200,7 +211,7 @@ fn payloads(slot_id: u32, seq: &mut u32, n: usize) -> (Vec<Val>, Vec<u64>) {
 }
 
 fn ids_of(vs: &[Val]) -> Vec<u64> {
-  vs.iter().map(|v| v.id).collect()
+  vs.iter().map(|v| v.wid()).collect()
 }
 
 #[derive(Clone, Copy, PartialEq, Eq, Debug)]
@@ -432,6 +443,25 @@ fn panic_note(p: Box<dyn std::any::Any + Send>) -> String {
 // Producer thread
 // ------------------------------------------------------------------------------------------
 
+/// Drain phase: waits (on a harness condition variable, i.e. asleep) until every value that some
+/// send has definitely delivered so far was received, the run is stopped, or no consumer thread
+/// is left. Recorded as an open blocking event so the progress monitor sees a waiting thread.
+fn await_drain(sh: &Shared, log: &Log, t16: u16, handle: u32) {
+  use std::sync::atomic::Ordering::SeqCst;
+  let target = crate::hist::DEF_SENT.load(SeqCst);
+  let ev = Ev::new(t16, handle, Side::Tx, Form::AwaitDrain, false);
+  let idx = log.begin(ev);
+  let was = chaos::pause();
+  let mut g = crate::hist::PHASE_LOCK.lock().unwrap_or_else(|e| e.into_inner());
+  while crate::hist::DEF_RECV.load(SeqCst) < target && !sh.stop.load(SeqCst) && sh.live_consumers.load(SeqCst) > 0 {
+    g = crate::hist::PHASE_CV.wait_timeout(g, Duration::from_millis(100)).unwrap_or_else(|e| e.into_inner()).0;
+  }
+  drop(g);
+  chaos::resume(was);
+  log.end(idx, |e| e.out = Out::Ok);
+  stuck::progress();
+}
+
 fn run_producer(sh: &Shared, tid: usize, first: TxH, first_id: u32) {
   let scn = &sh.scn;
   let log = &sh.logs[tid];
@@ -452,6 +482,9 @@ fn run_producer(sh: &Shared, tid: usize, first: TxH, first_id: u32) {
   let mut saw_closed = 0u32;
   while steps < scn.ops && !sh.stop.load(Ordering::Relaxed) && !panicked {
     steps += 1;
+    if scn.phases > 0 && steps > 1 && (steps - 1) % (scn.ops / (scn.phases as usize + 1)).max(1) == 0 {
+      await_drain(sh, log, t16, slots[0].id);
+    }
     let live: Vec<usize> = (0..slots.len()).filter(|&i| slots[i].h.is_some()).collect();
     if live.is_empty() {
       break;
@@ -491,7 +524,7 @@ fn run_producer(sh: &Shared, tid: usize, first: TxH, first_id: u32) {
           TxH::S(h) => Some(h.send(v)),
           TxH::A(h) => {
             if cancel {
-              block_on_or_cancel(h.send(v), cancel_patience(&mut rng)).0
+              block_on_or_cancel_ex(h.send(v), cancel_patience(&mut rng), rng.chance(1, 3)).0
             } else {
               Some(block_on(h.send(v)))
             }
@@ -541,7 +574,7 @@ fn run_producer(sh: &Shared, tid: usize, first: TxH, first_id: u32) {
                 TrySendError::Sent(v) => (Out::Sent, v),
               };
               e.out = out;
-              e.back = vec![v.id];
+              e.back = vec![v.wid()];
             }
             Err(p) => {
               e.out = Out::Panicked;
@@ -575,7 +608,7 @@ fn run_producer(sh: &Shared, tid: usize, first: TxH, first_id: u32) {
               TxH::S(h) => Some(h.send_batch(vs)),
               TxH::A(h) => {
                 if cancel {
-                  block_on_or_cancel(h.send_batch(vs), cancel_patience(&mut rng)).0
+                  block_on_or_cancel_ex(h.send_batch(vs), cancel_patience(&mut rng), rng.chance(1, 3)).0
                 } else {
                   Some(block_on(h.send_batch(vs)))
                 }
@@ -639,7 +672,7 @@ fn run_producer(sh: &Shared, tid: usize, first: TxH, first_id: u32) {
               TxH::S(h) => Some(h.send_batch_mut(&mut vs)),
               TxH::A(h) => {
                 if cancel {
-                  block_on_or_cancel(h.send_batch_mut(&mut vs), cancel_patience(&mut rng)).0
+                  block_on_or_cancel_ex(h.send_batch_mut(&mut vs), cancel_patience(&mut rng), rng.chance(1, 3)).0
                 } else {
                   Some(block_on(h.send_batch_mut(&mut vs)))
                 }
@@ -917,7 +950,7 @@ fn do_recv(log: &Log, t16: u16, slot: &mut RxSlot, op: COp, rng: &mut Rng, cance
     macro_rules! drive {
       ($fut:expr) => {
         if cancel {
-          block_on_or_cancel($fut, cancel_patience(rng)).0
+          block_on_or_cancel_ex($fut, cancel_patience(rng), rng.chance(1, 3)).0
         } else {
           Some(block_on($fut))
         }
@@ -1246,6 +1279,10 @@ pub struct StuckReport {
   pub canary_max_gap_us: u64,
   pub any_async_blocked: bool,
   pub any_sync_blocked: bool,
+  /// kernel-level confirmation that every unfinished worker was asleep (state S) through a
+  /// sampling window right before the nudge; `Some(false)` = runnable (starved or spinning)
+  pub parked: Option<bool>,
+  pub parked_detail: String,
   pub reason: String,
 }
 
@@ -1411,6 +1448,8 @@ pub fn watch(w: &WatchIn<'_>, cfg: &StuckCfg, canary: &Canary) -> (Option<StuckR
           canary_max_gap_us: canary.max_gap_us(),
           any_async_blocked: false,
           any_sync_blocked: false,
+          parked: None,
+          parked_detail: String::new(),
           reason: "no progress for 60 s while a thread is outside a blocking call (harness or timed-call livelock)".into(),
         });
         leaked = true;
@@ -1425,6 +1464,18 @@ pub fn watch(w: &WatchIn<'_>, cfg: &StuckCfg, canary: &Canary) -> (Option<StuckR
     let gap = canary.max_gap_us();
     let (enabled, blocked, any_async, any_sync) = (w.model)(&evs);
     let threads = (w.threads)();
+    // Kernel view: are the unfinished workers asleep, or merely not getting CPU / spinning?
+    let (parked, parked_detail) = stuck::workers_asleep(25, Duration::from_millis(20));
+    if parked == Some(false) && std::env::var("VH_GDB").is_ok() {
+      // triage aid: where are the runnable threads?
+      let pid = std::process::id();
+      let out = std::process::Command::new("gdb")
+        .args(["-p", &pid.to_string(), "-batch", "-ex", "thread apply all bt 25"])
+        .output();
+      if let Ok(o) = out {
+        let _ = std::fs::write(format!("/verif/replays/gdb-{}.txt", pid), o.stdout);
+      }
+    }
     // Nudge: a spurious unpark of every worker, and a spontaneous re-poll of every pending
     // future, are both legal events that change nothing in the channel. If they release a
     // thread, its operation had been possible all along.
@@ -1450,6 +1501,8 @@ pub fn watch(w: &WatchIn<'_>, cfg: &StuckCfg, canary: &Canary) -> (Option<StuckR
     let forced = vh_core::stepper::FORCED_READY.load(Ordering::SeqCst) - forced0;
     let reason = if gap > cfg.canary_limit_us {
       "scheduler canary unhealthy during the quiet window".to_string()
+    } else if parked == Some(false) {
+      format!("unfinished threads were runnable (starved or spinning), not parked: {}", parked_detail)
     } else if released {
       "a legal spurious wake / spontaneous re-poll released a thread that had been parked through the whole quiet window".to_string()
     } else if enabled {
@@ -1465,6 +1518,8 @@ pub fn watch(w: &WatchIn<'_>, cfg: &StuckCfg, canary: &Canary) -> (Option<StuckR
       canary_max_gap_us: gap,
       any_async_blocked: any_async,
       any_sync_blocked: any_sync,
+      parked,
+      parked_detail,
       reason,
     });
     if !(w.done)() {
@@ -1493,7 +1548,9 @@ pub fn execute(scn: Scenario, cfg: &StuckCfg, canary: &Canary, ledger_on: bool) 
     state: (0..nthreads).map(|_| AtomicU8::new(ST_RUN)).collect(),
     stop: AtomicBool::new(false),
     cap_reported: std::sync::Mutex::new(None),
+    live_consumers: AtomicU32::new(scn.consumers as u32),
   });
+  crate::hist::reset_phase_counters();
   // Hand out initial handles: producer 0 owns the original sender, others get clones made
   // here (recorded as Clone events of producer 0's log before the threads start).
   let mut txs: Vec<(TxH, u32)> = Vec::new();
@@ -1563,6 +1620,11 @@ pub fn execute(scn: Scenario, cfg: &StuckCfg, canary: &Canary, ledger_on: bool) 
       .spawn(move || {
         st.wait();
         let r = catch_unwind(AssertUnwindSafe(|| run_consumer(&sh2, tid, h, id, k == 0)));
+        sh2.live_consumers.fetch_sub(1, Ordering::SeqCst);
+        {
+          let _g = crate::hist::PHASE_LOCK.lock();
+          crate::hist::PHASE_CV.notify_all();
+        }
         if let Err(p) = r {
           let mut ev = Ev::new(tid as u16, 0, Side::Rx, Form::Probe, false);
           ev.note = Some(format!("harness thread panicked: {}", panic_note(p)));
@@ -1655,6 +1717,8 @@ pub fn extra_findings(o: &ExecOutcome, cfg: &StuckCfg) -> (Vec<Finding>, Vec<Str
   if let Some(s) = &o.stuck {
     if s.canary_max_gap_us > cfg.canary_limit_us {
       inconclusive.push(format!("stuck window with unhealthy canary ({} us)", s.canary_max_gap_us));
+    } else if s.parked == Some(false) {
+      inconclusive.push("quiet window with runnable (starved or spinning) threads: not a parked-forever verdict".to_string());
     } else if s.nudge_released || s.model_enabled {
       let async_only = s.any_async_blocked && !s.any_sync_blocked;
       let prop = if async_only || (s.forced_ready > 0 && !s.any_sync_blocked) { "C06" } else { "C05" };
@@ -1672,7 +1736,8 @@ pub fn extra_findings(o: &ExecOutcome, cfg: &StuckCfg) -> (Vec<Finding>, Vec<Str
           s.reason
         ),
         detail: json!({"blocked": s.blocked, "model_enabled": s.model_enabled, "nudge_released": s.nudge_released,
-          "spontaneous_repolls_ready": s.forced_ready, "canary_max_gap_us": s.canary_max_gap_us}),
+          "spontaneous_repolls_ready": s.forced_ready, "canary_max_gap_us": s.canary_max_gap_us,
+          "workers_asleep": s.parked, "worker_states": s.parked_detail}),
       });
     } else {
       inconclusive.push(format!("stuck but not decidable: {}", s.reason));
